@@ -488,8 +488,27 @@ class MatrixSum(Expression):
         For MatrixSum(X), gradient w.r.t. X[i,j] is 1 for all elements in X,
         0 for all other variables.
         """
-        my_vars = self.matrix.get_variables()
-        return [Constant(1.0) if var in my_vars else Constant(0.0) for var in variables]
+        if isinstance(self.matrix, MatrixVariable):
+            # d/dv of the sum is the number of entries that are v (an off-diagonal
+            # variable of a symmetric matrix occupies two entries)
+            counts: dict[str, int] = {}
+            for i in range(self.matrix.rows):
+                for j in range(self.matrix.cols):
+                    name = self.matrix._variables[i][j].name
+                    counts[name] = counts.get(name, 0) + 1
+            return [Constant(float(counts.get(var.name, 0))) for var in variables]
+
+        # MatrixExpression: the derivative of the sum is the sum of the entries' derivatives
+        from optyx.core.autodiff import gradient
+
+        row: list[Expression] = []
+        for var in variables:
+            total: Expression = Constant(0.0)
+            for entries in self.matrix._expressions:
+                for entry in entries:
+                    total = total + gradient(entry, var)
+            row.append(total)
+        return row
 
     def __repr__(self) -> str:
         if isinstance(self.matrix, MatrixVariable):
